@@ -1,5 +1,7 @@
 import ScryerModel.Drv.Util
+import ScryerModel.Drv.TermIO
 import ScryerModel.Model.Lfp
+import ScryerModel.Model.Delim
 /- drv_C38:
    `lfp <id> <D> <program> <queries>` (part B; space-separated tokens)
      D        = constants (naturals)
@@ -80,8 +82,34 @@ def lfpLine (d prog qs : String) : String :=
       " | ".intercalate (hdr :: Q.map fun q => showAnswers (answersIn L D q))
   | _, _, _ => "bad-input"
 
+/-! part A -/
+open Scryer Scryer.Solve Scryer.Delim in
+def delimLine (steps prog query vars : String) : String :=
+  let cls := ((unescape prog).splitOn "\n").filter (· ≠ "")
+  match steps.toNat?, cls.mapM parseTermStr, parseTermStr query with
+  | some n, some ts, some q =>
+      let P : Prog := ts.map fun t =>
+        match t with
+        | .str ":-" [h, b] => ⟨h, b⟩
+        | t => ⟨t, .atom "true"⟩
+      let tf := 100000
+      match run tf P n ⟨[.goal q], ⟨[], 0⟩⟩ with
+      | .success st =>
+          let bs := (words vars).map fun v =>
+            match resolve tf st.σ (.var v) with
+            | some t => s!"{v}={showTerm t}"
+            | none => s!"{v}=?"
+          " ".intercalate ("success" :: bs)
+      | .failure => "failure"
+      | .error f => "error " ++ showTerm f
+      | .oom => "oom"
+      | .timeout => "timeout"
+  | _, _, _ => "bad-input"
+
 end Scryer.DrvC38
 
 def main : IO Unit := runDriver fun
   | "lfp" :: _ :: d :: prog :: qs :: _ => Scryer.DrvC38.lfpLine d prog qs
+  | "delim" :: _ :: steps :: prog :: query :: vars :: _ => Scryer.DrvC38.delimLine steps prog query vars
+  | "delim" :: _ :: steps :: prog :: query :: [] => Scryer.DrvC38.delimLine steps prog query ""
   | _ => "bad-op"
